@@ -490,6 +490,73 @@ Proof. vm_compute. reflexivity. Qed.
                                     ['req', 2, ['jar', 0, 1], [['r']]], ['req', 2, ck, [['r']]]]})
         return out
 
+    def extra(self):
+        """a request for an expired (not yet swept) file session completes while the sweep is on its way to that very
+        file - just before the sweeper takes the session's lock: the request refreshed the session (new data, new
+        expiry), so the sweep must leave it and the next request must get that data.  Oracle only."""
+        env = self.env
+        S = env.sessions
+        out = []
+        for tmo, late in ((1, 61), (1, 3600), (2, 121)):
+            env.reset([7, 8, 9, 10, 11, 12])
+            app = env.app('file', tmo)
+
+            def req(cookie, acts):
+                hdrs = [] if cookie is None else [('Cookie', 'session_id=%s' % cookie)]
+                r = wsgi.call(app, 'GET', '/run?a=' + urllib.parse.quote(json.dumps(acts)), hdrs)
+                ck = http.cookies.SimpleCookie()
+                for v in wsgi.headers_all(r, 'Set-Cookie'):
+                    ck.load(v)
+                m = ck.get('session_id')
+                try:
+                    reads = json.loads(r.body)
+                except ValueError:
+                    reads = None
+                return r.status, (m.value if m is not None else None), reads
+            st0, sid, _ = req(None, [['w', 0, 1]])
+            env.t += late                                  # expired, still on disk
+            inter = {}
+            orig = S.FileSession.acquire_lock
+
+            def acquire(sess, path=None):
+                if path is not None and not inter:        # the sweeper reaches the first file
+                    inter['done'] = True
+                    S.FileSession.acquire_lock = orig      # (the interleaved request locks normally)
+                    try:
+                        inter['res'] = req(sid, [['r'], ['w', 0, 2]])
+                    finally:
+                        S.FileSession.acquire_lock = acquire
+                return orig(sess, path)
+            S.FileSession.acquire_lock = acquire
+            try:
+                sw = S.FileSession.__new__(S.FileSession)
+                sw.id_observers = []
+                sw._data = {}
+                sw.storage_path = env.dir
+                sw.lock_timeout = None
+                err = None
+                try:
+                    sw.clean_up()
+                except BaseException as e:      # noqa
+                    err = '%s: %s' % (type(e).__name__, e)
+            finally:
+                S.FileSession.acquire_lock = orig
+            env.t += 1
+            st2, sid2, reads2 = req(inter.get('res', (None, sid))[1] or sid, [['r']])
+            self.count('request interleaved with the file sweep (before the sweeper locks the session)')
+            obs = {'created': [st0, sid], 'interleaved': inter.get('res'), 'sweep_error': err,
+                   'after': [st2, sid2, reads2]}
+            isid = inter.get('res', (None, None))[1]
+            if inter.get('res') and inter['res'][0] == 200 and isid is not None and err is None:
+                if sid2 != isid or reads2 != [[[0, 2]]]:
+                    out.append(core.Violation(
+                        'sweep-removed-live-session',
+                        'a request refreshed session %s (data k0=2, expires in %d min) while the sweep was reaching '
+                        'its file; after the sweep the next request got id %s and data %r' % (isid, tmo, sid2, reads2),
+                        case={'k': 'sweep-interleaved', 'timeout_min': tmo, 'late_s': late}, observed=obs))
+                    break
+        return out
+
     def cases(self):
         quick = self.tier == 'quick'
         out = self.boundary_cases()
